@@ -22,7 +22,7 @@ import cdd.shared.docstring_utils
 from cdd.shared.source_transformer import to_code
 
 from vcdd import core
-from vcdd.gen import docgen, irgen
+from vcdd.gen import corpus, docgen, irgen
 from vcdd.monitors import contracts
 
 PID = "C15"
@@ -41,7 +41,8 @@ CUR = {}
 
 def streams(ctx):
     return [("docstrings", ctx.scale(2500, 40000)), ("keyword_prose", ctx.scale(800, 12000)),
-            ("format_prose", ctx.scale(800, 12000)), ("file_route", ctx.scale(60, 900))]
+            ("format_prose", ctx.scale(800, 12000)), ("file_route", ctx.scale(60, 900)),
+            ("corpus", len(corpus.docstrings()))]
 
 
 # prose carrying what a template engine, a %-format, a shell or a markup language would interpret (to a docstring converter
@@ -183,9 +184,60 @@ def run_file_route(ctx, P, stream, idx):
         shutil.rmtree(d, ignore_errors=True)
 
 
+def any_section_start(lines, i):
+    return any(is_section_start(lines, i, s) for s in STYLES) or lines[i].rstrip() in ("Args:", "Returns:", "Parameters", "Returns")
+
+
+def run_corpus(ctx, P, stream, idx):
+    """the repository's own docstrings (package, tests, the keras / torch / tensorflow style mocks): nobody generated
+    them. The split identity is demanded of every text at indentation 0; the header - the lines before the first line
+    that opens a section in any style - must survive conversion to each style, in order."""
+    origin, text = corpus.docstrings()[idx]
+    lines = text.split("\n")
+    stripped = [l.strip() for l in lines]
+    sec_at = next((i for i in range(len(lines)) if any_section_start(stripped, i)), None)
+    rest_lines = [l for l in lines[1:] if l.strip()]
+    indent0 = not lines[0][:1].isspace() and (not rest_lines or not rest_lines[0][0].isspace())
+    feats = "corpus,indent0=%s,section=%s" % (indent0, sec_at is not None)
+    CUR.update(P=P, stream=stream, idx=idx, feats=feats, indent=0 if indent0 else 1)
+    P.case({"doc": text}, nontrivial=sec_at is not None, klass="corpus/section=%s" % (sec_at is not None),
+           sample={"origin": origin, "docstring": text[:400]})
+    try:
+        if indent0:
+            cdd.shared.docstring_utils.parse_docstring_into_header_args_footer(text, text)
+    except Exception as e:
+        P.deviation("split.raises.%s|%s" % (type(e).__name__, feats), "split raised %r" % (e,),
+                    {"stream": stream, "idx": idx, "origin": origin, "docstring": text})
+    if sec_at is None or not indent0:
+        CUR.update(P=None)
+        return
+    hdr = [l for l in stripped[:sec_at] if l]
+    for T in STYLES:
+        try:
+            ir = cdd.docstring.parse.docstring(text)
+            out = cdd.docstring.emit.docstring(deepcopy(ir), docstring_format=T, indent_level=0)
+        except Exception as e:
+            P.count("corpus.raised:" + type(e).__name__)
+            continue
+        P.monitor("conversion.header.checked")
+        P.monitor("corpus.conversion.checked")
+        missing = in_order(hdr, [l.strip() for l in out.split("\n")])
+        if missing is not None:
+            # a prose line that *mentions* a ReST field marker (`the index of ':' in ':rtype'`) is cut at the marker
+            mech = "docstring.header-line-mentioning-field-marker-cut|" if any(
+                t in missing for t in (":rtype", ":return", ":param", ":type", ":cvar")) else ""
+            P.deviation(mech + "conversion.header-line-lost|%s,T=%s" % (feats, T),
+                        "header line %r of a repository docstring is not a whole line of the converted docstring (in order)"
+                        % missing[:80], {"stream": stream, "idx": idx, "origin": origin, "docstring": text, "target": T,
+                                         "converted": out})
+    CUR.update(P=None)
+
+
 def run_case(ctx, P, stream, idx):
     if stream == "file_route":
         return run_file_route(ctx, P, stream, idx)
+    if stream == "corpus":
+        return run_corpus(ctx, P, stream, idx)
     if stream == "format_prose":
         with irgen.extra_words(FORMAT_WORDS * 2):
             return _run_case(ctx, P, stream, idx)
